@@ -228,7 +228,7 @@ Fixpoint eval (env : str -> option Qc) (venv : str -> option (list Qc)) (e : exp
       if str_eqb f (s2l "index") then
         match venv v with Some l => nth_error l (nat_of_digits ip) | None => None end
       else None
-  | Call f [a] => if str_eqb f (s2l "no_op") then eval env venv a else None   (* PyRates' pass-through marker *)
+  | Call f [a] => if str_eqb f (s2l "no_op") || str_eqb f (s2l "identity") then eval env venv a else None   (* pass-through marker *)
   | Call _ _ => None
   end.
 
@@ -417,6 +417,11 @@ Definition process_func_call (expr func repl : str) : option str :=
       end
   end.
 
+(* the identity/no_op branch of _expr_to_str after the repair D41: the marker call is replaced by its first argument
+   in parentheses *)
+Definition identity_surgery (expr var : str) : option str :=
+  process_func_call expr (s2l "identity") ("(" :: var ++ [")"]).
+
 Fixpoint balanced_from (d : nat) (s : str) : bool :=
   match s with
   | [] => (d =? 0)%nat
@@ -430,6 +435,35 @@ Definition balanced (s : str) : bool := balanced_from 0 s.
    the text of the call as sympy prints it is f ++ "(" ++ arg1 ++ rest ++ ")".  *)
 Inductive outcome := Ok (s : str) | ErrSyntax | ErrKey.
 Definition atomic_text (s : str) : bool := forallb is_idchar s.
+
+(* guards of the recorded findings *)
+Fixpoint has_call (e : expr) : bool :=
+  match e with
+  | Num _ _ | Var _ => false
+  | Neg a => has_call a
+  | Add a b | Sub a b | Mul a b | Div a b | Pow a b => has_call a || has_call b
+  | Call _ _ => true
+  end.
+(* F1: a helper call inside a divisor (sympy prints x/f(..) but hands 1/f(..) to the textual replacement) *)
+Fixpoint no_call_in_divisor (e : expr) : bool :=
+  match e with
+  | Num _ _ | Var _ | Call _ _ => true
+  | Neg a => no_call_in_divisor a
+  | Div a b => no_call_in_divisor a && negb (has_call b)
+  | Add a b | Sub a b | Mul a b | Pow a b => no_call_in_divisor a && no_call_in_divisor b
+  end.
+Fixpoint mentions (x : str) (e : expr) : bool :=
+  match e with
+  | Num _ _ => false
+  | Var y => str_eqb x y
+  | Neg a => mentions x a
+  | Add a b | Sub a b | Mul a b | Div a b | Pow a b => mentions x a || mentions x b
+  | Call _ args => (fix any (l : list expr) : bool := match l with [] => false | a :: r => mentions x a || any r end) args
+  end.
+(* F4 (= C01-D22b): the duplicated variable `dup` is relabelled dup_v1 while the operator also owns a user variable dup_v1 *)
+Definition no_label_chain (dup : str) (e : expr) : bool := negb (mentions dup e && mentions (dup ++ s2l "_v1") e).
+Definition guard_divisor (s : str) : bool := match parse s with Some e => no_call_in_divisor e | None => true end.
+Definition guard_chain (dup s : str) : bool := match parse s with Some e => no_label_chain dup e | None => true end.
 
 (* decidable comparison helpers for the correspondence run *)
 Definition ostr_eqb (a b : option str) : bool :=
